@@ -47,7 +47,9 @@ class Doc:
                 continue
             if k in ELEM:
                 if p == 0:
-                    el = mod.Element(ELEM[k])
+                    # lxml: p and q are declared on the document element (in scope everywhere); xml.etree has no
+                    # namespace declarations: the caller passes the same map as `namespaces=`
+                    el = mod.Element(ELEM[k], nsmap=NS) if lib == 'lxml' else mod.Element(ELEM[k])
                     for x in pre_root:
                         el.addprevious(x)
                 else:
